@@ -44,6 +44,10 @@ type SegmentGenerator struct {
 	afCacheBuff bytes.Buffer
 	// time jitter for aac
 	aacJitter *hlsAacJitter
+
+	started      bool  // 已收到第一帧
+	hasVideo     bool  // 收到过视频帧
+	lastVideoPts int64 // 最近视频帧的 pts
 }
 
 // NewSegmentGenerator .
@@ -108,6 +112,13 @@ func (sg *SegmentGenerator) WriteMpegtsFrame(frame *mpegts.Frame) (err error) {
 		return
 	}
 
+	// 第一个分段从第一帧的时间开始计时，而不是从 0 开始
+	// (RTP 时间戳的起点是随机的，从 0 计时会让第一个分段"时长"立刻超限)
+	if !sg.started {
+		sg.started = true
+		sg.current.segmentStartPts = frame.Pts
+	}
+
 	if frame.IsAudio() {
 		if sg.afCache == nil {
 			pts := sg.aacJitter.onBufferStart(frame.Pts, sg.audioRate)
@@ -132,7 +143,7 @@ func (sg *SegmentGenerator) WriteMpegtsFrame(frame *mpegts.Frame) (err error) {
 		// pure audio again for audio disabled.
 		// so we reap event when the audio incoming when segment overflow.
 		// we use absolutely overflow of segment to make jwplayer/ffplay happy
-		if sg.isSegmentAbsolutelyOverflow() {
+		if sg.isSegmentAbsolutelyOverflow() && sg.isPureAudio(frame.Pts) {
 			if err = sg.reapSegment(frame.Pts); err != nil {
 				return
 			}
@@ -140,6 +151,8 @@ func (sg *SegmentGenerator) WriteMpegtsFrame(frame *mpegts.Frame) (err error) {
 		return
 	}
 
+	sg.hasVideo = true
+	sg.lastVideoPts = frame.Pts
 	if frame.IsKeyFrame() && sg.isSegmentOverflow() {
 		if err = sg.reapSegment(frame.Pts); err != nil {
 			return
@@ -229,6 +242,14 @@ func (sg *SegmentGenerator) isSegmentAbsolutelyOverflow() bool {
 	res := sg.current.duration >= float64(2*sg.hlsFragment)
 
 	return res
+}
+
+// whether the source currently carries audio only: no video frame at all so far,
+// or none for at least one fragment length. Only then may an audio frame cut a
+// segment; while video is flowing, segments are cut at key frames only, so that
+// every segment starts with a key frame even when the GOP is longer than 2 fragments.
+func (sg *SegmentGenerator) isPureAudio(pts int64) bool {
+	return !sg.hasVideo || pts-sg.lastVideoPts >= int64(sg.hlsFragment)*90000
 }
 
 // Close .
